@@ -475,9 +475,51 @@ class Analyzer:
         else:
             iv = _add(self.ieval(idx, st), c)
         ok = iv[0] >= 0 and iv[1] <= count - 1
+        if not ok and not isinstance(idx, int):
+            gov = self._value_governed(idx)
+            if gov:
+                # the index moves in a loop that is ended by what a value has become (a number running out of digits), not by a
+                # comparison of the index: how often it turns is a fact about values, which intervals joined at the loop head lose
+                self.__dict__.setdefault('unmodelled', []).append(
+                    '%s: %s of %s[%d]: the index depends on %s, which is stepped in a loop that no test of it ends; how far it gets is a '
+                    'fact about the values the loop consumes' % (self.fn.where(node), how, name, count, gov))
+                return
         self.site('BND4', node, '%s of %s[%d] at %s' % (how, name, count, expr_str(node)[:40]), ok,
                   'index in [%s,%s]' % (iv[0] if iv[0] > NEG else '-inf', iv[1] if iv[1] < POS else 'inf'),
                   '%s:%s[%s]' % (how, name, expr_str(strip_casts(idx)) if not isinstance(idx, int) else idx))
+
+    def _value_governed(self, idx, depth=0):
+        """name of a local the index depends on that is stepped inside a loop none of whose tests mentions it, else None"""
+        cfg = self.cfg
+        if not hasattr(self, '_cycles'):
+            self._cycles = []
+            for h in [n.id for n in cfg.nodes if n.kind == 'nop' and n.name == 'loop-head']:
+                self._cycles.append(cfg.reachable(h) & cfg.reachable(h, forward=False))
+        for x in walk(idx):
+            if x.get('k') != 'ref' or x.get('dk') != 'local':
+                continue
+            d = x['d']
+            for cyc in self._cycles:
+                stepped = False
+                tested = False
+                for nid in cyc:
+                    nd = cfg.nodes[nid]
+                    for ev in node_effects(nd):
+                        if ev.kind in ('incdec', 'store') and strip_casts(ev.lhs).get('k') == 'ref' and strip_casts(ev.lhs).get('d') == d:
+                            stepped = True
+                    if nd.kind == 'branch' and nd.expr is not None and any(y.get('k') == 'ref' and y.get('d') == d for y in walk(nd.expr)):
+                        tested = True
+                if stepped and not tested:
+                    return x['n']
+            if depth < 2:
+                defs = [a['r'] for a in self.fn.nodes() if a.get('k') == 'bin' and a.get('op') == '=' and
+                        strip_casts(a['l']).get('k') == 'ref' and strip_casts(a['l']).get('d') == d]
+                defs += [dd['init'] for dd in self.fn.locals() if dd['d'] == d and 'init' in dd]
+                for r in defs:
+                    g = self._value_governed(r, depth + 1)
+                    if g:
+                        return g
+        return None
 
     # ---- transfer -------------------------------------------------------------------------------------------
     def idx_key(self, did):
